@@ -55,3 +55,17 @@ Theorem C10_refusals : forall (c : cfg) name ct content clock mtime s i,
   next_state s (recommend c name ct content clock mtime s) = s.
 Proof. exact refusals. Qed.
 Print Assumptions C10_refusals.
+
+(* ... and along EVERY sequence of comments (any types, texts, clock strings, mtimes > 0) on an article that accepts
+   comments, from every start score in [-100, 100]: the score after the sequence is the fold of clamp(. + delta) over
+   the comment types, and it is within [-100, 100] (by induction: after every prefix) *)
+Theorem C10_score_seq : forall c name (steps : list step_in) s i,
+  find_entry (s_dir s) name (length (s_dir s) / REC_SZ) = Some i ->
+  c_norec c = false -> nth 0 name 0 <> 76 -> locked (rec_filemode (rec_at (s_dir s) i)) = false ->
+  Forall (fun st : step_in => 0 < snd st) steps ->
+  -100 <= rec_score (rec_at (s_dir s) i) <= 100 ->
+  let s' := run_seq c name steps s in
+  rec_score (rec_at (s_dir s') i) = score_after (rec_score (rec_at (s_dir s) i)) steps /\
+  -100 <= rec_score (rec_at (s_dir s') i) <= 100.
+Proof. exact score_seq. Qed.
+Print Assumptions C10_score_seq.
